@@ -387,9 +387,27 @@ func (e *Exec) loopWriteSet(fr *frame, h *ssa.BasicBlock) (map[string]bool, map[
 			if ci, ok := in.(ssa.CallInstruction); ok && fr.spec != nil {
 				if f := ci.Common().StaticCallee(); f != nil {
 					for _, gs := range fr.spec.GhostSets {
-						if gs.OnStore == "" && gs.Callee == f.Name() {
+						if gs.OnStore != "" {
+							continue
+						}
+						hit := gs.Callee == f.Name()
+						if !hit && strings.HasPrefix(gs.Callee, f.Name()+"#") {
+							for _, k := range e.siteKeysOf(fr, f.Name(), ci.Common()) {
+								if k == gs.Callee {
+									hit = true
+								}
+							}
+						}
+						if hit {
 							ws["G$"+gs.Var] = true
 						}
+					}
+				}
+			}
+			if _, ok := in.(*ssa.Send); ok && fr.spec != nil {
+				for _, gs := range fr.spec.GhostSets {
+					if gs.OnStore == "@send" {
+						ws["G$"+gs.Var] = true
 					}
 				}
 			}
@@ -638,6 +656,7 @@ func (e *Exec) packResults(rs []Val, rt types.Type) Val {
 func (e *Exec) callWith(fr *frame, st *State, c *ssa.CallCommon, fv Val, args []Val, rt types.Type, pos token.Pos, how string) Val {
 	sig := c.Signature()
 	e.curCallFrame = fr
+	e.curCall = c
 	e.curCallArg0 = nil
 	if len(c.Args) > 0 {
 		e.curCallArg0 = c.Args[0]
@@ -1046,7 +1065,14 @@ func (e *Exec) contractCall(fr *frame, st *State, callee *ssa.Function, spec *Fu
 	}
 	// extra call-site requirements of the caller's contract (lock discipline)
 	if e.spec != nil && callee != nil {
-		for _, c := range e.topFrame.spec.CallReqs[callee.Name()] {
+		var creqs []*Clause
+		creqs = append(creqs, e.topFrame.spec.CallReqs[callee.Name()]...)
+		if fr == e.topFrame {
+			for _, k := range e.siteKeys(fr, callee.Name()) {
+				creqs = append(creqs, e.topFrame.spec.CallReqs[k]...)
+			}
+		}
+		for _, c := range creqs {
 			cenv := e.specEnv(e.topFrame, st, nil)
 			for k, v := range e.topFrame.entryParams {
 				if _, isLocal := e.topFrame.locals[k]; !isLocal {
@@ -1282,8 +1308,19 @@ func (e *Exec) contractCall(fr *frame, st *State, callee *ssa.Function, spec *Fu
 	}
 	if callee != nil && e.topFrame != nil && e.topFrame.spec != nil && fr == e.topFrame {
 		for _, gs := range e.topFrame.spec.GhostSets {
-			if gs.OnStore != "" || gs.Callee != callee.Name() {
+			if gs.OnStore != "" {
 				continue
+			}
+			if gs.Callee != callee.Name() {
+				hit := false
+				for _, k := range e.siteKeys(fr, callee.Name()) {
+					if k == gs.Callee {
+						hit = true
+					}
+				}
+				if !hit {
+					continue
+				}
 			}
 			g, ok := e.ss.GhostVars[gs.Var]
 			if !ok {
@@ -1917,4 +1954,45 @@ func (e *Exec) ghostOnStore(fr *frame, st *State, a *ssa.Alloc, oldV, newV Val, 
 		genv.ghostVar(g)
 		e.setHeap(st, "G$"+gs.Var, v.T)
 	}
+}
+
+// siteKeys: the names "callee#k" and possibly "callee#last" of the call that
+// is being executed, k being its 1-based position among the static call
+// sites of callee in the function, in source order.
+func (e *Exec) siteKeys(fr *frame, callee string) []string {
+	return e.siteKeysOf(fr, callee, e.curCall)
+}
+
+func (e *Exec) siteKeysOf(fr *frame, callee string, cur *ssa.CallCommon) []string {
+	if cur == nil || fr.fn == nil {
+		return nil
+	}
+	// sites in source order
+	var sites []ssa.CallInstruction
+	for _, b := range fr.fn.Blocks {
+		for _, in := range b.Instrs {
+			ci, ok := in.(ssa.CallInstruction)
+			if !ok {
+				continue
+			}
+			if f := ci.Common().StaticCallee(); f != nil && f.Name() == callee {
+				sites = append(sites, ci)
+			}
+		}
+	}
+	sort.SliceStable(sites, func(a, b int) bool { return sites[a].Pos() < sites[b].Pos() })
+	k, total := 0, len(sites)
+	for idx, ci := range sites {
+		if ci.Common() == cur {
+			k = idx + 1
+		}
+	}
+	if k == 0 {
+		return nil
+	}
+	out := []string{fmt.Sprintf("%s#%d", callee, k)}
+	if k == total {
+		out = append(out, callee+"#last")
+	}
+	return out
 }
